@@ -21,9 +21,11 @@ CLAIMED = {
   text="seeded search over interleavings x pool decisions x cache capacities; schedules replay exactly from the tape",
   note="generated and native code are atomic blocks except at call-outs; the real GC is not scheduled by the simulator (a crash it causes is a true violation but replays only through the deterministic traceback-sentinel oracle)",
   ref="DESIGN.md 3 (C08)"),
-}
-
-NOT_YET = {
+ "C09": dict(
+  technique="deterministic simulation of process-global state through seeded call histories: program-cache capacity knob (rehash/wrap-around with a handful of types), compile-option knobs, seeded permutation of every Go map iteration in the compile and batch-load paths, seeded pool decisions, same-named distinct types; oracle = encoding/json + arbitration by the same call with emptied caches",
+  text="seeded search over histories x knobs; one history = one tape, minimised and replayed in a fresh process",
+  note="single client (the concurrent aspect is C08); reference restricted to the value subset of DESIGN Appendix B; loader module list is never reset inside a process",
+  ref="DESIGN.md 3 (C09)"),
 }
 
 NA = {
